@@ -83,9 +83,22 @@ CHECKS['C02'] = {
                  'against a reference interpreter',
 }
 
+CHECKS['C08'] = {
+    'text': 'Bounded symbolic model checking of subquery composition: for every inner-query kind (filtered, aggregated, '
+            'ordered by a hidden key, DISTINCT, LIMIT n, swapped / expression outputs) and outer-query kind, nested '
+            'execution over symbolic 2-3 row tables equals the outer query over the materialised inner result '
+            '(description and rows), SELECT * FROM (q) equals q, histories of differently typed subqueries, depth 3; '
+            'IN / NOT IN (subquery) over a second table against the reference membership semantics.',
+    'design_ref': 'DESIGN.md section 5, C08',
+    'note': _COMMON_NOTE + ' The FROM-subquery oracle is the real code itself run over the materialised inner result '
+            '(metamorphic); its correctness on plain tables is C01-C03.',
+    'technique': 'symbolic execution (CrossHair/z3) of SubqueryTable / EvalConstantSubquery1D / compiler; '
+                 'metamorphic materialise-and-rerun oracle',
+}
+
 NOT_APPLICABLE = {
     pid: 'check under construction in this session; not claimed yet'
-    for pid in [ 'C04', 'C05', 'C06', 'C07', 'C08', 'C09', 'C11', 'C12', 'C13',
+    for pid in [ 'C04', 'C05', 'C06', 'C07', 'C09', 'C11', 'C12', 'C13',
                 'C14', 'C15', 'C16', 'C17', 'C18', 'C19', 'C20']
 }
 
